@@ -2,7 +2,7 @@
 import re
 
 from ..common import Report
-from ..corpus import load
+from ..corpus import load, load_repo_tests
 from ..wrules import FnModView, TraitView, last_seg
 
 
@@ -35,11 +35,17 @@ def run(tier):
     rep = Report("C13", tier, "translation_validation")
     configs = ["plain", "unimock_test"] if tier == "quick" else ["plain", "test", "unimock", "unimock_test"]
     programs = 0
-    for cfg in configs:
-        ld = load(rep, "pos", cfg)
+    loaded = [(cfg, load(rep, "pos", cfg)) for cfg in configs]
+    if tier == "thorough":
+        loaded.append(("unimock_test", load_repo_tests(rep)))
+    for cfg, ld in loaded:
         crate = ld.crate
         for exp in crate.expansions:
             key0 = exp.ident()
+            parent_def = crate.get(exp.module) if exp.module else None
+            if parent_def is not None and parent_def["kind"] != "Mod":
+                rep.count("skipped_items_in_fn_bodies")
+                continue  # declared inside a function body: block-local items have no module-level visibility to compare
             if exp.mode in ("fn", "mod") and exp.attr and exp.attr.trait_name:
                 v = FnModView(crate, exp)
                 if v.trait is None:
